@@ -197,7 +197,7 @@ def ucl_lines():
     return _UCL_CACHE["lines"]
 
 
-def fam_cli_uclchem(rng, idx, with_binding):
+def fam_cli_uclchem(rng, idx, with_binding, repl="full"):
     lines = ucl_lines()
     grain = [ln for ln in lines if any(k in ln.split(",")[:3] for k in ("FREEZE", "DESOH2", "DESCR", "DEUVCR", "THERM"))]
     gas = [ln for ln in lines if ln not in grain]
@@ -206,7 +206,8 @@ def fam_cli_uclchem(rng, idx, with_binding):
         grain = [ln for ln in grain if "THERM" not in ln.split(",")[:3]]
     pick = rng.sample(gas, min(len(gas), rng.randint(4, 10))) + rng.sample(grain, min(len(grain), rng.randint(2, 5)))
     net = {"elements": list(UCL_ELEMENTS), "pseudo_elements": ["CR", "CRP", "PHOTON", "CRPHOT"], "grain_model": model}
-    cli = {"files": ["reactions.ucl"], "formats": ["uclchem"], "replacement": dict(UCL_REPLACEMENT)}
+    table = {"full": dict(UCL_REPLACEMENT), "none": {}, "partial": {"HE": "He"}}[repl]
+    cli = {"files": ["reactions.ucl"], "formats": ["uclchem"], "replacement": table}
     cli["solver"], cli["method"], cli["device"] = rng.choice(METHODS)
     if with_binding:
         cli["binding_energy"] = {"#CO": float(rng.choice([1300, 1150, 2222])), "#H2O": float(rng.choice([5600, 4800])),
@@ -218,7 +219,7 @@ def fam_cli_uclchem(rng, idx, with_binding):
     steps = [{"s": "cli_render", "pattern": rng.random() < 0.2}]
     if rng.random() < 0.4:
         steps.append({"s": "cli_render"})
-    tag = "bind" if with_binding else "nobind"
+    tag = ("bind" if with_binding else "nobind") + ("" if repl == "full" else "-repl" + repl)
     return {"id": f"cli-uclchem-{tag}-{idx}", "family": f"cli-uclchem-{tag}", "entry": "cli", "name": "simproj",
             "files": {"reactions.ucl": "\n".join(pick) + "\n"}, "net": net, "cli": cli, "steps": steps}
 
@@ -246,6 +247,11 @@ def fam_api_native_grain(rng, idx, gprefix):
     rng.shuffle(gas)
     rng.shuffle(ice)
     reacs = gas[: rng.randint(2, 5)] + ice[: rng.randint(2, 6)]
+    if model == "hh93" and not gprefix and rng.random() < 0.7:
+        # charged and neutral grains in one grain group: electron capture and cation recombination
+        reacs += [(["e-", "GRAIN0"], ["GRAIN-"], 221), (["C+", "GRAIN-"], ["C", "GRAIN0"], 220)]
+        if rng.random() < 0.5:
+            reacs.append((["H+", "GRAIN-"], ["H", "GRAIN0"], 220))
     net = dict(MIXED, grain_model=model)
     if gprefix:
         net["species_kwargs"] = {"surface_prefix": "G"}
@@ -285,11 +291,12 @@ def build_library(seed, tier):
     lib = []
     for i in range(per):
         lib.append(fam_api_text(rng, i, "mixed", MIXED, "kida"))
-        lib.append(fam_api_text(rng, i, "upper", UPPER, rng.choice(["naunet", "umist"])))
+        ucl_lists = {"elements": list(UCL_ELEMENTS), "pseudo_elements": ["CR", "CRP", "PHOTON", "CRPHOT"]}
+        lib.append(fam_api_text(rng, i, "upper", ucl_lists if i % 2 else UPPER, rng.choice(["naunet", "umist"])))
         lib.append(fam_api_text(rng, i, "mixed", MIXED, rng.choice(["umist", "naunet"])))
         lib.append(fam_api_krome_custom(rng, i))
         lib.append(fam_cli_uclchem(rng, i, with_binding=True))
-        lib.append(fam_cli_uclchem(rng, i, with_binding=False))
+        lib.append(fam_cli_uclchem(rng, i, with_binding=False, repl=["full", "none", "partial"][i % 3]))
         lib.append(fam_cli_kida(rng, i))
         lib.append(fam_api_native_grain(rng, i, gprefix=False))
         lib.append(fam_api_native_grain(rng, i, gprefix=True))
